@@ -3,7 +3,7 @@ import platform
 import sys
 import traceback
 
-from conductor.errors import ConductorError, UnsupportedPlatform
+from conductor.errors import ConductorAbort, ConductorError, UnsupportedPlatform
 from conductor.errors.signal import register_signal_handlers
 
 
@@ -41,15 +41,22 @@ def cli_command(main):
     takes care of reporting errors that occur when running a command.
     """
 
+    def report_and_exit(ex, args):
+        if args.debug:
+            print(traceback.format_exc(), file=sys.stderr)
+        print("ERROR:", ex.printable_message(), file=sys.stderr)
+        sys.exit(1)
+
     def command_main(args):
         try:
-            check_platform_compatibility()
-            register_signal_handlers()
-            main(args)
-        except ConductorError as ex:
-            if args.debug:
-                print(traceback.format_exc(), file=sys.stderr)
-            print("ERROR:", ex.printable_message(), file=sys.stderr)
-            sys.exit(1)
+            try:
+                check_platform_compatibility()
+                register_signal_handlers()
+                main(args)
+            except ConductorError as ex:
+                report_and_exit(ex, args)
+        except ConductorAbort as ex:
+            # SIGINT/SIGTERM arrived while we were reporting another error.
+            report_and_exit(ex, args)
 
     return command_main
